@@ -100,7 +100,7 @@ func CallsArg(fn *ssa.Function, name, callee string, k int, argRe string) Ev {
 		if calleeName(c) != callee {
 			continue
 		}
-		args := c.Common().Args
+		args := allArgs(c)
 		if k >= len(args) {
 			continue
 		}
